@@ -96,11 +96,91 @@ def mk_cvrs(spec, votes_rng):
         votes = {}
         for c in st:
             votes[spec["keys"][c] if c < len(spec["keys"]) else f"other{c}"] = {} if ph else votes_rng.choice(VOTE_DICTS)()
-        cv = Au.CVR(id=spec["cardids"][i], votes=votes, phantom=ph, sample_num=nm,
-                    tally_pool=votes_rng.choice([None, "p1"]), pool=False)
+        tp = votes_rng.choice([None, "p1"])
+        if spec.get("via_dict"):     # the record arrives as a dict that already carries a sample_num key
+            cv = Au.CVR.from_dict([{"id": spec["cardids"][i], "votes": votes, "phantom": ph, "sample_num": nm,
+                                    "tally_pool": tp, "pool": False}])[0]
+        else:
+            cv = Au.CVR(id=spec["cardids"][i], votes=votes, phantom=ph, sample_num=nm, tally_pool=tp, pool=False)
         cv.aval = [votes_rng.randint(0, 64) / 64 for _ in range(spec["m"])]   # read by the "table" assorter only
         cvrs.append(cv)
     return cvrs
+
+
+PRELUDES = ("same_list", "reseed", "new_list", "refill")
+
+
+def rehearse(cvrs, spec, pre):
+    """A short unrelated audit on this list: fresh contests, other sizes, one draw (sometimes continued once)."""
+    Au = A()
+    with warnings.catch_warnings():
+        warnings.simplefilter("ignore")
+        contests = mk_contests(spec)
+    cnt = counts(spec)
+    for key, c in zip(contests, cnt):
+        contests[key].sample_size = pre.randint(0, c)
+    try:
+        got = Au.CVR.consistent_sampling(cvrs, contests)
+        if pre.random() < 0.4:
+            for key, c in zip(contests, cnt):
+                contests[key].sample_size = pre.randint(contests[key].sample_size, c)
+            Au.CVR.consistent_sampling(cvrs, contests, got)
+    except Exception:  # noqa
+        pass
+    for c in cvrs:
+        c.sampled = False            # the user starts the next audit from a clean slate
+
+
+def build_cvrs(spec, votes_rng, prelude=None, pre_seed=0):
+    """The CVR list for the audit under test.  With a prelude it is NOT the first thing that happens in the process:
+      same_list  the same list object and CVR objects were sampled from before, under other (explicit) sample numbers
+      reseed     ... under the numbers of another seed; then assign_sample_nums with the audit's seed (spec['seed'])
+      new_list   another list of the same length was sampled from and deleted (CPython often reuses its id)
+      refill     the same list object was sampled from and then refilled with new CVR objects
+    Afterwards every card carries spec['nums']; all oracles and the model apply as to a fresh list."""
+    import random
+    if prelude is None:
+        return mk_cvrs(spec, votes_rng)
+    from cryptorandom.cryptorandom import SHA256
+    Au = A()
+    pre = random.Random(pre_seed)
+    n = len(spec["nums"])
+    other = dict(spec)
+    other["nums"] = pre.sample(range(1, 10 * n + 10), n)
+    if prelude in ("same_list", "reseed"):
+        cvrs = mk_cvrs(other, votes_rng)
+        if prelude == "reseed":
+            Au.CVR.assign_sample_nums(cvrs, SHA256(pre.randint(0, 10 ** 9)))
+        rehearse(cvrs, spec, pre)
+        if prelude == "reseed":
+            Au.CVR.assign_sample_nums(cvrs, SHA256(spec["seed"]))
+        else:
+            for c, nm in zip(cvrs, spec["nums"]):
+                c.sample_num = nm
+        return cvrs
+    first = mk_cvrs(other, pre)
+    rehearse(first, spec, pre)
+    if prelude == "refill":
+        first[:] = mk_cvrs(spec, votes_rng)
+        return first
+    del first
+    return mk_cvrs(spec, votes_rng)
+
+
+def add_prelude(rng, h, spec, share=0.4, kinds=PRELUDES):
+    """Decide (in the generator) whether this audit runs after an earlier use of its list; 'reseed' fixes the numbers to
+    the SHA-256 stream of a seed so that assign_sample_nums can produce them."""
+    h["prelude"], h["pre_seed"] = None, rng.randint(0, 10 ** 9)
+    if rng.random() < share and len(spec["nums"]) > 0:
+        h["prelude"] = rng.choice(kinds)
+        if h["prelude"] == "reseed":
+            if len(set(spec["nums"])) != len(spec["nums"]):
+                h["prelude"] = "same_list"          # tied numbers cannot come from the generator
+            else:
+                spec["seed"] = rng.randint(0, 10 ** 12)
+                spec["nums"] = sha_stream(spec["seed"], len(spec["nums"]))
+    if rng.random() < 0.25:
+        spec["via_dict"] = True
 
 
 def mk_contests(spec, tests=None):
@@ -296,7 +376,9 @@ def cs_case_lit(case):
 
 def cs_case_json(case):
     s = case["spec"]
-    return {"nums": [str(x) for x in s["nums"]], "styles": s["styles"], "queries": C.jsonable(case["queries"]), "tag": case.get("tag")}
+    return {"nums": [str(x) for x in s["nums"]], "styles": s["styles"], "queries": C.jsonable(case["queries"]), "tag": case.get("tag"),
+            "before_these_calls": case.get("prelude"), "pre_seed": case.get("pre_seed"), "seed": s.get("seed"),
+            "built_by_from_dict": bool(s.get("via_dict"))}
 
 
 def oracle_query(spec, q, cvrs=None, contests=None, mvrs=None):
@@ -356,7 +438,9 @@ def exhaustive_cases(rng, nmax, all_orders_upto, cont_all=False, stats=None):
                 if rng.random() < 0.08:
                     nums = [NEAR + v for v in nums]       # same order, but indistinguishable as doubles
                 spec = gen_spec(rng, n=n, m=2, nums=nums, styles=styles, plain=True)
-                cvrs = mk_cvrs(spec, rng)
+                hp = {}
+                add_prelude(rng, hp, spec, share=0.12, kinds=("same_list", "new_list", "refill"))
+                cvrs = build_cvrs(spec, rng, hp["prelude"], hp["pre_seed"])
                 contests = mk_contests(spec)
                 cnt = counts(spec)
                 qs = []
@@ -370,7 +454,9 @@ def exhaustive_cases(rng, nmax, all_orders_upto, cont_all=False, stats=None):
                     for sub in (subs if cont_all else [rng.choice(subs)]):
                         if fresh.get(sub) is not None:
                             qs.append(run_query(cvrs, contests, sizes, fresh[sub], prev_sizes=sub))
-                cases.append({"spec": spec, "queries": qs, "tag": "exhaustive"})
+                cases.append({"spec": spec, "queries": qs, "tag": "exhaustive", "prelude": hp["prelude"], "pre_seed": hp["pre_seed"]})
+                if stats is not None and hp["prelude"]:
+                    stats["list used before: " + hp["prelude"]] = stats.get("list used before: " + hp["prelude"], 0) + 1
                 if stats is not None:
                     stats["exhaustive card lists"] = stats.get("exhaustive card lists", 0) + 1
     return cases
@@ -384,7 +470,9 @@ def random_cs_cases(rng, ncases, stats=None):
         ties = rng.random() < 0.2
         spec = spec_in_dict_order(gen_spec(rng, n=rng.choice([0, 1, 2, 6, 8, 10, 14]), ties=ties))
         spec["thr0"] = [rng.choice([None, None, 5, -1]) for _ in range(spec["m"])]
-        cvrs = mk_cvrs(spec, rng)
+        hp = {}
+        add_prelude(rng, hp, spec, share=0.4)
+        cvrs = build_cvrs(spec, rng, hp["prelude"], hp["pre_seed"])
         contests = mk_contests(spec)
         cnt = counts(spec)
         qs = []
@@ -412,7 +500,9 @@ def random_cs_cases(rng, ncases, stats=None):
             qs.append(q)
         if stats is not None and ties:
             stats["tied sample numbers"] = stats.get("tied sample numbers", 0) + 1
-        cases.append({"spec": spec, "queries": qs, "tag": "random"})
+        cases.append({"spec": spec, "queries": qs, "tag": "random", "prelude": hp["prelude"], "pre_seed": hp["pre_seed"]})
+        if stats is not None and hp["prelude"]:
+            stats["list used before: " + hp["prelude"]] = stats.get("list used before: " + hp["prelude"], 0) + 1
     return cases
 
 
@@ -432,7 +522,9 @@ def gen_history(rng, valid=True):
         spec["thr0"] = [rng.choice([None, 7, 0]) for _ in range(spec["m"])]
         spec["proved0"] = [rng.random() < 0.3 for _ in range(spec["m"])]
     modes = [rng.random() < 0.5 for _ in range(R)]
-    return {"spec": spec, "sizes": sizes, "modes": modes, "valid": valid}
+    h = {"spec": spec, "sizes": sizes, "modes": modes, "valid": valid}
+    add_prelude(rng, h, spec)
+    return h
 
 
 def gen_long_history(rng):
@@ -453,8 +545,10 @@ def gen_long_history(rng):
     sizes = [[rng.randint(min(3, c), max(min(3, c), c // 2)) for c in cnt]]
     for _ in range(R - 1):
         sizes.append([rng.randint(k, c) for k, c in zip(sizes[-1], cnt)])
-    return {"spec": spec, "sizes": sizes, "modes": [rng.random() < 0.5 for _ in range(R)], "valid": True,
-            "seeds": [rng.randint(0, 10 ** 9) for _ in range(3)]}
+    h = {"spec": spec, "sizes": sizes, "modes": [rng.random() < 0.5 for _ in range(R)], "valid": True,
+         "seeds": [rng.randint(0, 10 ** 9) for _ in range(3)]}
+    add_prelude(rng, h, spec)
+    return h
 
 
 def run_history(hist, modes=None, votes_seed=0, mvr_seed=0, shuffle_seed=0, tests=None):
@@ -464,7 +558,7 @@ def run_history(hist, modes=None, votes_seed=0, mvr_seed=0, shuffle_seed=0, test
     spec = hist["spec"]
     modes = hist["modes"] if modes is None else modes
     import random
-    cvrs = mk_cvrs(spec, random.Random(votes_seed))
+    cvrs = build_cvrs(spec, random.Random(votes_seed), hist.get("prelude"), hist.get("pre_seed", 0))
     mvrs = mk_mvrs(spec, random.Random(mvr_seed), cvrs)
     shuf = random.Random(shuffle_seed)
     with warnings.catch_warnings():
@@ -585,6 +679,8 @@ def hist_case_json(case):
     s = case["hist"]["spec"]
     return {"nums": [str(x) for x in s["nums"]], "styles": s["styles"], "phantom": s["phantom"], "cfg": s["cfg"],
             "sizes": case["hist"]["sizes"], "modes": case["hist"]["modes"], "tests": s["tests"],
+            "before_this_audit": case["hist"].get("prelude"), "pre_seed": case["hist"].get("pre_seed"),
+            "seed": s.get("seed"), "built_by_from_dict": bool(s.get("via_dict")),
             "rounds": C.jsonable([{k: v for k, v in r.items() if k not in ("ids",)} for r in case["out"]["rounds"]])}
 
 
@@ -614,6 +710,7 @@ def asn_cases(rng, ncases):
                 prng.nextRandom()
             spec1 = gen_spec(rng, n=n1)
             spec2 = gen_spec(rng, n=n2)
+            spec1["via_dict"], spec2["via_dict"] = rng.random() < 0.4, rng.random() < 0.4
             l1, l2 = mk_cvrs(spec1, rng), mk_cvrs(spec2, rng)
             for lst in (l1, l2):       # identifiers are not positions: repeated ids (un-merged rows), missing ids, ids shared across lists
                 kind = rng.choice(["distinct", "dups", "none", "rows", "allsame"])
@@ -628,6 +725,8 @@ def asn_cases(rng, ncases):
                         cv.id = "same"
             if l1 and l2 and rng.random() < 0.5:
                 l2[0].id = l1[-1].id
+            if rng.random() < 0.5:     # the objects were numbered before (another seed, or a sample_num key in from_dict)
+                Au.CVR.assign_sample_nums(rng.sample(l1 + l2, len(l1) + len(l2)), SHA256(rng.randint(0, 10 ** 9)))
             r1 = Au.CVR.assign_sample_nums(l1, prng)
             got1 = [int(c.sample_num) for c in l1]
             r2 = Au.CVR.assign_sample_nums(l2, prng)
@@ -791,6 +890,8 @@ def corr_histories(ctx, res, stats, n_valid, n_invalid):
         h["seeds"] = seeds
         out = run_history(h, votes_seed=seeds[0], mvr_seed=seeds[1], shuffle_seed=seeds[2])
         cases.append({"hist": h, "out": out})
+        if h.get("prelude"):
+            stats["history after earlier use: " + h["prelude"]] = stats.get("history after earlier use: " + h["prelude"], 0) + 1
         for r in out["rounds"]:
             stats["rounds: continue" if r["cont"] else "rounds: redraw"] = stats.get("rounds: continue" if r["cont"] else "rounds: redraw", 0) + 1
             if r["pdone"]:
